@@ -52,7 +52,12 @@ def shape_of(m):
 
 def compare(rep, prop, cases, out, label="c"):
     """compare driver output lines with the oracle; returns stats"""
-    lines = [l for l in out.splitlines() if not l.startswith("SZ ")]
+    lines = [l for l in out.splitlines() if not l.startswith(("SZ ", "XS "))]
+    xs = [l for l in out.splitlines() if l.startswith("XS ")]
+    if xs != F.self_expected() and (xs or "DONE" in out):
+        rep.violation("%s|%s|self-spelled-option-in-result" % (prop, label), {"expected": F.self_expected(), "observed": xs,
+                                                                          "rust": "impl St { fn opt_self(self, sel: u8) -> Result<Option<Self>, ()> }"},
+                      "%s driver: `-> Result<Option<Self>, ()>` on a struct arrives as %s, Rust returned %s" % (label, xs, F.self_expected()))
     exp = []
     for (m, j, c) in cases:
         e = F.expected_line(m, j, c)
